@@ -5,3 +5,18 @@
     open spec fn record_sample_post(&self, post: &Self, stats: Seq<(&str, Option<Value>)>, draws: Seq<(&str, Option<Value>)>, info: &Progress, r: Result<()>) -> bool {
         rs_post(*self, *post, stats, draws, *info, r)
     }
+
+    // ---- finalize / inspect / flush
+    type Finalized = HashMapResult;
+    uninterp spec fn fin_rel(&self, r: Result<HashMapResult>) -> bool;
+    /// façade for the real `finalize` (its two loop bodies are lifted and proved; the iteration scaffold is dropped)
+    #[verifier::external_body]
+    fn finalize(self) -> (r: Result<HashMapResult>) { unimplemented!() }
+    open spec fn inspect_post(&self, r: Result<Option<HashMapResult>>) -> bool {
+        match r {                                                            // [C14.4]
+            Ok(Some(v)) => self.fin_rel(Ok(v)),
+            Ok(None) => false,
+            Err(e) => self.fin_rel(Err(e)),
+        }
+    }
+    open spec fn flush_post(&self, r: Result<()>) -> bool { r is Ok }
